@@ -66,12 +66,11 @@ Definition check_1903 (fs : list field) : verdict :=
             end)
     | None => vand (expect 3 (e1 =? 1) [FZ 1])
                    (* both skippers fail on input the model rejects (finding 1901 fixed: SkipNative used to return nil) *)
-                   (match decode (S (length bs)) t bs with
-                    | Some (v, _) =>
-                      (* a well-formed value that is only too DEEP for SkipGo (limit 1023): the native skipper's own
-                         stack holds 1024 levels, so it may still succeed there — the depth-limit boundary is not part of
-                         C19 (it is compared under C18) *)
-                      if wf v then (if e2 =? 0 then VDrift 41 else VOk) else expect 4 (negb (e2 =? 0)) [FZ 1]
+                   (* a value that is only too DEEP for SkipGo (limit 1023) but skippable with an unbounded depth budget:
+                      the native skipper's own stack holds 1024 levels, so it may still succeed there — the depth-limit
+                      boundary is not part of C19 (it is compared under C18) *)
+                   (match skip (S (length bs)) t bs with
+                    | Some _ => if e2 =? 0 then VDrift 41 else VOk
                     | None => expect 4 (negb (e2 =? 0)) [FZ 1]
                     end)
     end
